@@ -3,10 +3,11 @@
 set -e
 cd "$(dirname "$0")"
 export GOFLAGS=-mod=mod GOPROXY=off GOSUMDB=off GOTOOLCHAIN=local
-mkdir -p tools/extract/bin tools/writesites/bin tools/gotolean/bin harness/bin evidence
+mkdir -p tools/extract/bin tools/writesites/bin tools/gotolean/bin tools/errflow/bin harness/bin evidence
 (cd tools/extract && go build -o bin/extract .)
 (cd tools/writesites && go build -o bin/writesites . && bin/writesites /repo /verif/lean/Jmes/GeneratedWrites.lean)
 (cd tools/gotolean && go build -o bin/gotolean . && (bin/gotolean /repo /verif/lean/Jmes/GeneratedSlice.lean || cp fallback.lean /verif/lean/Jmes/GeneratedSlice.lean))
+(cd tools/errflow && go build -o bin/errflow . && bin/errflow /repo /verif/lean/Jmes/GeneratedErrFlow.lean)
 cp /repo/go.sum harness/go.sum
 (cd harness && go build -tags verif -o bin/harness .)
 (cd /repo && go build -o /verif/harness/bin/jpgo ./cmd/jpgo)
